@@ -303,3 +303,72 @@ def c17_callbacks_typed(tier="quick", seed=0):
     run("typed.set-typed-source", "var s16 = new Int16Array([300, -1]); var d8 = new Uint8Array(3); d8.set(s16, 1); [d8[0], d8[1], d8[2]]", [0, 44, 255])
     run("typed.buffer-identity", "var b = new ArrayBuffer(4); var t = new Uint8Array(b); t.buffer === b", True)
     return out
+
+
+# ---- bounded: views over one buffer see each other's writes (byte model) ---------------------------------------------
+import struct
+
+VIEW_KINDS = {"Uint8Array": ("B", 1), "Int8Array": ("b", 1), "Uint16Array": ("H", 2), "Int16Array": ("h", 2), "Uint32Array": ("I", 4), "Int32Array": ("i", 4),
+              "Float32Array": ("f", 4), "Float64Array": ("d", 8), "Uint8ClampedArray": ("B", 1)}
+
+
+def _view_seq_chunk(args):
+    seed, n = args
+    from microjs import Context
+    rng = random.Random(seed)
+    bad = []
+    cnt = 0
+    for _ in range(n):
+        size = 16
+        kinds = rng.sample(list(VIEW_KINDS), 3)
+        model = bytearray(size)
+        lines = [f"var buf = new ArrayBuffer({size});"] + [f"var v{i} = new {k}(buf);" for i, k in enumerate(kinds)] + ["var log = [];"]
+        expected = []
+        for step in range(rng.randint(3, 9)):
+            vi = rng.randrange(3)
+            fmt, w = VIEW_KINDS[kinds[vi]]
+            idx = rng.randrange(size // w)
+            val = rng.choice([0, 1, 5, 7, 200, 255, 256, 65535, 70000, -1, -129, 2 ** 31, 3.5, -2.5, 1e10, 0.1])
+            # value stored per ECMA-262 typed array element conversion
+            if fmt in ("f", "d"):
+                stored = struct.pack("<" + fmt, val)
+            elif kinds[vi] == "Uint8ClampedArray":
+                stored = struct.pack("<B", clamp8(val))
+            else:
+                bits = 8 * w
+                m = int(math.trunc(val)) % (1 << bits) if val == val and abs(val) != math.inf else 0
+                stored = m.to_bytes(w, "little")
+            model[idx * w:(idx + 1) * w] = stored
+            lines.append(f"v{vi}[{idx}] = {val!r};")
+            # observe every view completely
+            obs = []
+            for j, k in enumerate(kinds):
+                f2, w2 = VIEW_KINDS[k]
+                vals = struct.unpack("<" + f2 * (size // w2), bytes(model))
+                obs.append(",".join(CORE.number_to_string(float(x)) if isinstance(x, float) else str(x) for x in vals))
+            expected.append("|".join(obs))
+            lines.append("log.push([" + ", ".join(f"Array.prototype.slice ? v{j}.join(',') : ''" for j in range(3)) + "].join('|'));")
+        lines.append("log.join('\\n')")
+        src = "\n".join(lines).replace("Array.prototype.slice ? ", "").replace(" : ''", "")
+        cnt += 1
+        try:
+            got = Context(time_limit=5).eval(src)
+        except Exception as e:  # noqa
+            got = "!" + type(e).__name__ + ": " + str(e)[:80]
+        if got != "\n".join(expected):
+            bad.append((src, str(got)[:300], "\n".join(expected)[:300]))
+            if len(bad) > 2:
+                break
+    return cnt, bad
+
+
+@groups.group(id="C17.bounded.view-sequences", prop="C17", kind="B", functions=["microjs.values:JSTypedArray.set_index", "microjs.values:JSTypedArray.get_index"])
+def c17_view_sequences(tier="quick", seed=0):
+    import multiprocessing as mp
+    n = 25 if tier == "quick" else 600
+    with mp.get_context("fork").Pool(16) as pool:
+        rs = pool.map(_view_seq_chunk, [(seed * 7919 + i, n) for i in range(16)])
+    tot = sum(c for c, _ in rs)
+    bad = [b for _, bs in rs for b in bs]
+    return [ob("C17.bounded.view-sequences", not bad, "B", f"{tot} write sequences through 3 views over one ArrayBuffer agree with a byte model after every write" if not bad else
+               f"engine {bad[0][1]!r} expected {bad[0][2]!r}", witness=(bad[0][0] if bad else None), confirmed=True if bad else None, domain=tot)]
